@@ -82,8 +82,9 @@ def main():
         res["checks"] = {}
         for c in checks:
             rcc, outc = sh(f"./check {c}", cwd=VERIF, timeout=3000)
-            viol = [l for l in outc.split("\n") if l.startswith("VIOLATION") or l.startswith("  ->")]
-            res["checks"][c] = {"exit": rcc, "lines": viol[:8],
+            viol = [l for l in outc.split("\n") if l.startswith("VIOLATION")][:4] + \
+                [l for l in outc.split("\n") if l.startswith("  ->")][:5]
+            res["checks"][c] = {"exit": rcc, "lines": viol,
                                 "summary": [l for l in outc.split("\n") if l.startswith(f"[{c}]")][-1:]}
     finally:
         sh(f"git -C {REPO} checkout -- .")
